@@ -202,6 +202,34 @@ func (g *c02rxGen) pattern() string {
 	return p
 }
 
+// loops over bodies that can match the empty text (Go compiles x* as (x+)? then; an empty iteration ends the
+// loop), over a two-letter alphabet so that they actually match
+var c02rxNullBodies = []string{`a*`, `a*?`, `|a`, `a|`, `a?`, `a??`, `a?b?`, `(a*)`, `(a)*`, `(a|b*)`, `(b*|a)`, `(|a)`, `(a|)`, `a*b*`, `(a*)(b*)`,
+	`(a*)*`, `(a*)+`, `(a+)?`, `^`, `$`, `\b`, `(a??)(b??)`, `()`, `(?:)`, `(a?)|(b?)`, `(a*?)(b)?`, `a{0,2}`, `(a{0,1}b{0,1}){0,2}`, `(a|(b)?)`, `((a)|b)*?`, `(?:a*|b)`, `[ab]*?`, `(?P<n>a*)`}
+
+func c02rxNullable(r *Rand) string {
+	var sb strings.Builder
+	n := 1 + r.Intn(3)
+	for i := 0; i < n; i++ {
+		switch r.Intn(4) {
+		case 0:
+			sb.WriteString(Pick(r, []string{"a", "b", "c", "(a)", "[ab]", "(b|c)", "a+", "b?"}))
+			continue
+		}
+		body := Pick(r, c02rxNullBodies)
+		if r.Chance(1, 3) {
+			body = Pick(r, c02rxNullBodies) + body
+		}
+		op := Pick(r, []string{"*", "+", "*?", "+?", "{0,}", "{1,}", "{2,}", "{2,}?", "*", "+", "{1,2}", "?"})
+		open := Pick(r, []string{"(", "(", "(?:"})
+		sb.WriteString(open + body + ")" + op)
+	}
+	if r.Chance(1, 4) {
+		sb.WriteString(Pick(r, []string{"c", "$", "b", "(c)?"}))
+	}
+	return sb.String()
+}
+
 func c02rxLine(r *Rand) []byte {
 	n := Pick(r, []int{0, 1, 2, 3, 4, 5, 6, 8, 10, 14})
 	alpha := Pick(r, []string{"abc", "ab", "ab", "abcAB01 =-_/.:", "aab b", "abc01 =-", "aAbB", "ab01", "a\nb ", "abc\t\r[\\"})
@@ -248,6 +276,18 @@ func c02RxGen(r *Rand, tier string) []string {
 		{`(a{2}){2,3}`, "aaaaaaa"},
 		{`(a){0}b`, "ab"},
 		{`(?:(a)|b){3}`, "abb"},
+		{`(|a)*`, "aa"},
+		{`(|a)+`, "aa"},
+		{`(a*?)+`, "aa"},
+		{`(a*)*`, "b"},
+		{`(a*)+`, "b"},
+		{`(a|b*)*c`, "abbac"},
+		{`((a*)*)*b`, "aab"},
+		{`(a?b?)*`, "abba"},
+		{`(a*){2,}`, "aaa"},
+		{`(?:(a)|(b)|)*`, "abc"},
+		{`(\b)+a`, " a"},
+		{`(a??)*b`, "aab"},
 	}
 	for _, f := range fixed {
 		out = append(out, fmt.Sprintf("rx 0 %s %s", HexS(f.pat), HexS(f.line)))
@@ -267,6 +307,23 @@ func c02RxGen(r *Rand, tier string) []string {
 		{`(a{1,2}){2}`, "aaa"},
 	} {
 		out = append(out, fmt.Sprintf("rx 1 %s %s", HexS(f.pat), HexS(f.line)))
+	}
+	for i := 0; i < n/5; i++ {
+		pat := c02rxNullable(r)
+		posix := "0"
+		if !strings.Contains(pat, "?:") && !strings.Contains(pat, "?P") && !strings.Contains(pat, `\b`) && !strings.Contains(pat, "*?") && !strings.Contains(pat, "+?") &&
+			!strings.Contains(pat, "??") && !strings.Contains(pat, "}?") && r.Chance(1, 3) {
+			posix = "1"
+		}
+		for k := 0; k < 2; k++ {
+			ln := Pick(r, []int{0, 1, 2, 3, 4, 5, 7})
+			line := make([]byte, ln)
+			alpha := Pick(r, []string{"ab", "ab", "a", "abc", "aab"})
+			for j := range line {
+				line[j] = alpha[r.Intn(len(alpha))]
+			}
+			out = append(out, fmt.Sprintf("rx %s %s %s", posix, HexS(pat), Hex(line)))
+		}
 	}
 	for i := 0; i < n; i++ {
 		g := &c02rxGen{r: r, names: map[string]bool{}}
